@@ -13,7 +13,7 @@ PKG_M = "pkg/object/mqttproxy"
 
 CLAUSES = ("INVARIANTS TypeOK PerPeriodBound %s\n"
            "PROPERTIES WaitBound ImmediateIfSpare RejectOnlyIfFull FrozenCapacity\n")
-MQ_CLAUSES = ("INVARIANTS WindowBound %s\n"
+MQ_CLAUSES = ("INVARIANTS %s %s\n"
               "PROPERTIES MqttAdmitIfSpare MqttRejectOnlyIfFull\n")
 FL_CLAUSES = ("INVARIANTS TypeOK NeverOverCap\n"
               "PROPERTIES UnmatchedNeverLimited RejectOnlyIfExhausted ReloadKeepsState\n")
@@ -26,14 +26,15 @@ def rl_cfg(spec, pols, gaps, counts, maxnow, maxarr, setstate=False, refine=True
             + ((CLAUSES % ("Conforms RefInv" if refine else "")) if clauses else ""))
 
 
-def mq_cfg(spec, maxnow, maxarr, refine=True, view=True, clauses=True):
-    return ("SPECIFICATION %s\nCONSTANTS\n  Policies <- GridQ\n  Gaps <- GapsS\n  Counts <- CountsQ\n  MaxNow = %d\n  MaxArr = %d\n  KeepHist = TRUE\n"
-            % (spec, maxnow, maxarr) + ("VIEW view\n" if view else "")
-            + ((MQ_CLAUSES % ("Conforms RefInv" if refine else "")) if clauses else ""))
+def mq_cfg(spec, maxnow, maxarr, hist=False):
+    g = ("GridW", "GapsW", "CountsW") if hist else ("GridQ", "GapsS", "CountsQ")
+    return ("SPECIFICATION %s\nCONSTANTS\n  Policies <- %s\n  Gaps <- %s\n  Counts <- %s\n  MaxNow = %d\n  MaxArr = %d\n  KeepHist = %s\n"
+            % ((spec,) + g + (maxnow, maxarr, "TRUE" if hist else "FALSE")) + "VIEW view\n"
+            + (MQ_CLAUSES % ("WindowBound" if hist else "", "Conforms RefInv")))
 
 
 def fl_cfg(maxreq, maxrel, view=True, clauses=True):
-    return ("SPECIFICATION GSpec\nCONSTANTS\n  Specs <- SpecU\n  Requests <- ReqU\n  MaxReq = %d\n  MaxReload = %d\n" % (maxreq, maxrel)
+    return ("SPECIFICATION GSpec\nCONSTANTS\n  Specs <- SpecU\n  Requests <- ReqU\n  Bursts <- BurstU\n  MaxReq = %d\n  MaxReload = %d\n" % (maxreq, maxrel)
             + ("VIEW view\n" if view else "") + (FL_CLAUSES if clauses else ""))
 
 
@@ -56,14 +57,16 @@ def run(ctx):
         "util limiters: virtual clock installed through the package variable ratelimiter.nowFunc; durations in whole microseconds",
         "refresh cycles are aligned to the limiter's creation (as the code does); 'timeout horizon' = the cycles whose start lies "
         "certainly within the timeout: current .. current + timeout div period",
-        "filter replay: refresh period 1h and already-cancelled request contexts (clock not replaceable from that package), so every "
-        "limiter stays at the beginning of its first cycle where the contract admits exactly the first L*(T div P+1) requests "
-        "(theorem FrozenCapacity, model-checked)",
+        "filter replay: already-cancelled request contexts (Handle returns where it would wait) and either a refresh period of 1h or, for "
+        "policies that leave the period to its default of 10ms, a run measured to last < 8ms (repeated otherwise) - the limiter's clock is "
+        "not replaceable from that package; so every limiter stays at the beginning of its first cycle, where the contract admits exactly "
+        "the first L*(T div P+1) requests (theorem FrozenCapacity, model-checked)",
         "filter: a rule that is new or whose policy changed gets a fresh limiter (the text only speaks about unchanged rules); "
         "specs with two identical rules are outside the universe (C13); the old generation is not used after Inherit (C11)",
-        "MQTT byte limiter: whether the excess of an oversized packet is charged to the following periods is left open by the "
-        "contract (lower/upper counters); mqttproxy harness moves the limiter's private startTime to let time pass and brackets "
-        "each call with real-clock readings (cycle known up to an interval, TLC searches)",
+        "MQTT request/byte limiters (timeout 0): 'bytes exceed bytesRate by less than one packet' is read over windows of whole periods "
+        "(any k periods: admitted tokens < k*rate + last packet), i.e. the excess of an oversized packet is a debt paid off at one rate per "
+        "period, and a packet must be admitted iff no debt has reached its rate; mqttproxy harness moves the limiter's private startTime to "
+        "let time pass and brackets each call with real-clock readings (cycle known up to an interval, TLC searches)",
         "MultiRateLimiter is claimed for timeout 0 only (its only use in easegress)",
     ]
     phases = [("mc", _mc), ("mbt", _mbt), ("tv", _tv), ("ctv", _ctv), ("filter", _filter), ("mqtt", _mqtt)]
@@ -92,13 +95,14 @@ def _mc(ctx):
          "contract alone (any allowed reply), 15 policies"),
         ("RateLimiter_Gen", rl_cfg("GSpec", "GridA" if q else "GridAB", "GapsS" if q else "GapsL", "One", 63 if q else 100, 9 if q else 12),
          "acquirePermission arithmetic refines the contract, single token"),
-        ("RateLimiter_Gen", rl_cfg("GSpec", "GridA" if q else "GridAB", "GapsS", "N123", 40 if q else 50, 5 if q else 7),
+        ("RateLimiter_Gen", rl_cfg("GSpec", "GridA" if q else "GridAB", "GapsS", "N123", 30 if q else 50, 5 if q else 7),
          "N-token form"),
         ("RateLimiter_Gen", rl_cfg("GSpec", "GridM", "GapsS", "M2", 30 if q else 40, 6 if q else 8),
          "MultiRateLimiter, timeout 0"),
         ("RateLimiter_Gen", rl_cfg("GSpec", "GridA", "GapsS", "One", 20 if q else 30, 4 if q else 6, setstate=True),
          "with SetState(disabled/normal)"),
-        ("RateLimiterMqtt_Gen", mq_cfg("GSpec", 20 if q else 30, 6 if q else 8), "MQTT form: token arithmetic = carried debt, WindowBound"),
+        ("RateLimiterMqtt_Gen", mq_cfg("GSpec", 30, 6 if q else 8), "MQTT form: token arithmetic = carried debt"),
+        ("RateLimiterMqtt_Gen", mq_cfg("GSpec", 14 if q else 18, 6 if q else 7, hist=True), "MQTT form: carried debt => WindowBound (history in the state)"),
         ("RateLimiterFilter_Gen", fl_cfg(5 if q else 7, 2 if q else 3), "filter: first match, 429, reload carry-over"),
     ]
 
@@ -195,7 +199,7 @@ def _validate(ctx, module, cfg, events, name, kind, what, sig_extra=None, count_
 # ------------------------------------------------------------------------------------------ MBT
 def _mbt(ctx):
     q = ctx.quick
-    nA, nM, depth = (300, 150, 30) if q else (3000, 1500, 40)
+    nA, nM, depth = (220, 110, 30) if q else (3000, 1500, 40)
     simA = ("SPECIFICATION GSpecS\nCONSTANTS\n  Policies <- GridAB\n  Gaps <- GapsL\n  Counts <- One\n  MaxNow = 1000000\n"
             "  MaxArr = 1000000\n  WithSetState = FALSE\n")
     simM = ("SPECIFICATION GSpec\nCONSTANTS\n  Policies <- GridQ\n  Gaps <- GapsD\n  Counts <- CountsD\n  MaxNow = 1000000\n  MaxArr = 1000000\n"
@@ -276,7 +280,7 @@ def _ctv(ctx):
 # ------------------------------------------------------------------------------------------ filter
 def _filter(ctx):
     q = ctx.quick
-    nb, depth = (250, 16) if q else (2500, 22)
+    nb, depth = (200, 16) if q else (2500, 22)
     behs = ctx.tlc_simulate("RateLimiterFilter_Gen", fl_cfg(1000000, 1000000, view=False, clauses=False), nb, depth)
     inp = ctx.path("c09_fbehs.ndjson")
     with open(inp, "w") as fh:
@@ -292,22 +296,36 @@ def _filter(ctx):
     if summ[0]["elapsed_ms"] > 20 * 60 * 1000:
         ctx.inconclusive("C09 filter replay took %d ms: the frozen-clock assumption (everything within the first half hour) is void" % summ[0]["elapsed_ms"])
     ctx.evals(summ[0]["steps"])
-    ctx.traces(len(behs))
-    if not any(st.get("hit") == 0 for b in behs for st in b[1:] if st.get("a") == "req"):
-        ctx.inconclusive("filter behaviours contain no request to an unmatched URL (vacuous)")
+    ctx.traces(len(behs) - summ[0]["slow"])
+    if summ[0]["slow"] * 2 > max(1, summ[0]["fast"]):
+        ctx.inconclusive("C09 filter replay: %d of the %d behaviours with a default (10ms) refresh period could not be run within 8ms "
+                         "(machine too slow): the frozen-clock assumption could not be established" % (summ[0]["slow"], summ[0]["fast"]))
+    reqs = [st for b in behs for st in b[1:] if st.get("a") == "req"]
+    if not any(st["hit"] == 0 for st in reqs) or not any(st["adm"] < st["k"] for st in reqs):
+        ctx.inconclusive("filter behaviours contain no request to an unmatched URL / no rejection (vacuous)")
+    carried = 0
     for b in behs:
-        if any(s.get("res") == "rateLimited" for s in b) and any(s.get("a") == "reload" for s in b[1:]):
+        # a rejection right after a reload: the permits were used up on an earlier generation
+        rej_after_reload = any(b[i].get("a") == "reload" and b[i + 1].get("a") == "req" and b[i + 1]["hit"] > 0 and b[i + 1]["adm"] == 0
+                               for i in range(1, len(b) - 1))
+        if rej_after_reload:
+            carried += 1
             ctx.nontrivial({"k": "filter", "b": b})
+    if carried < 5:
+        ctx.inconclusive("filter behaviours: only %d show a limiter exhausted on one generation and still limiting on the next (vacuous)" % carried)
     ctx.sample({"kind": "filter-behaviour", "steps": [{k: v for k, v in s.items() if k != "spec"} for s in behs[0][1:7]]})
     for m in [x for x in recs if x.get("k") == "mismatch"]:
         beh = m["behaviour"]
         reloaded = any(s.get("a") == "reload" for s in beh[1:])
         st = beh[-1]
-        cls = ("unmatched-url-limited" if st.get("hit") == 0 else "status-code" if "status code" in m["what"] else
-               "not-limited" if st.get("res") == "rateLimited" else "limited-with-permits-left")
-        ctx.violation({"kind": "filter", "class": cls, "after_reload": reloaded},
+        defaults = any(p.get("L") == 0 or p.get("tmo") == -1 or p.get("per") == "d"
+                       for s in beh if "spec" in s for p in s["spec"]["pols"])
+        cls = ("unmatched-url-limited" if st.get("hit") == 0 else "reject-shape" if "neither admitted" in m["what"] else
+               "too-many-admitted" if "of" in m["what"] and int(m["what"].split()[0]) > st.get("adm", 0) else "too-few-admitted")
+        ctx.violation({"kind": "filter", "class": cls, "after_reload": reloaded, "defaulted_policy": defaults},
                       "real RateLimiter filter diverges from the specification at step %d: %s" % (m["step"], m["what"]), m)
-    ctx.log("filter: %d behaviours, %d steps, %d mismatches" % (len(behs), summ[0]["steps"], summ[0]["mismatches"]))
+    ctx.log("filter: %d behaviours (%d need the 10ms-period limiters to stay young: %d too slow), %d steps, %d mismatches, %d with state carried over a reload" % (
+        len(behs), summ[0]["fast"], summ[0]["slow"], summ[0]["steps"], summ[0]["mismatches"], carried))
     # real time, one-sided: releases per refresh cycle
     tp = ctx.path("c09_frel.ndjson")
     rc, out = ctx.go_test(PKG_F, "^TestVerifC09FilterRelease$", env={"VERIF_OUT": tp, "VERIF_N": 3 if q else 10})
